@@ -374,7 +374,7 @@ struct C17 : World {
       }
       car.push_back(mags[r.below((uint64_t)nm)] * 256 + lo);
     }
-    int npages = (int)r.below(1 + r.below(14 * (uint64_t)big));
+    int npages = r.chance(1, 7) ? (int)r.below(2) : 2 + (int)r.below(1 + r.below(13 * (uint64_t)big));
     for (int i = 0; i < npages; i++) {
       Op o; o.task = 0; o.kind = "page";
       int style = r.chance(1, 2) ? 0 : (int)r.below(16);
@@ -396,13 +396,13 @@ struct C17 : World {
       bool regexp = r.chance(1, 2);
       std::string pat;
       if (regexp) pat = gen_regex(r, re_mask);
-      else { int n = 1 + (int)r.below(5); for (int i = 0; i < n; i++) pat += (char)rnd_char(r); }
+      else { int n = 1 + (int)r.below(6); if (n == 1 && r.chance(2, 3)) n = 3; for (int i = 0; i < n; i++) pat += (char)rnd_char(r); }
       int prog = r.chance(1, 2) ? 0 : 1 + (int)r.below(2);
       // patsrc 1: literal taken from the displayed text of a cached page (patarg selects page/offset, patlen the length)
       o.a = {pgno - 0x100, (int64_t)(r.chance(1, 2) ? 0 : r.below(5)), (int64_t)r.below(2), regexp ? 1 : 0, prog, 1 + (int64_t)r.below(6), (!regexp && r.chance(1, 3)) ? 1 : 0, (int64_t)r.below(100000), 2 + (int64_t)r.below(10)};
       o.s = pat;
       p.ops.push_back(o);
-      int n = 1 + (int)r.below(16);
+      int n = 1 + (int)r.below(r.chance(1, 3) ? 8 : 24);
       int dir = (int)r.below(2);
       int flip = (int)r.below(4);  // 0: never
       for (int i = 0; i < n; i++) {
